@@ -1,4 +1,5 @@
 """C02 — compiled programs behave as the language's reference semantics prescribe."""
+import re
 import gen_lang
 import wire
 from vlib import Case, lang_lines, vmrun_lines
@@ -356,6 +357,8 @@ def core_fn_program(rng, typed=True):
     """a program of lean/P2sh/Core/Fn: global data, 1–3 functions (straight-line with locals, bounded recursion through the
     function's own name, mutual recursion through a forward-declared global, loops with early `return`), calls from the
     top level (in expressions, in loops), sometimes a call with the wrong number of arguments"""
+    if rng.random() < 0.35:
+        return core_clos_program(rng)      # closures: function literals inside function bodies capturing locals and parameters
     ex = fn_int if typed else fn_any
     lines = []
     counter = [0]
@@ -454,6 +457,221 @@ def core_fn_program(rng, typed=True):
     return "\n".join(lines) + "\n"
 
 
+# ---- closures over the layer with functions (lean/P2sh/Core/Fn: mkclos / fget / fset; theorems compile_sound_functions,
+#      C04Closure.closure_snapshot, captured_assignment_is_private) ----
+CLOS_LITS = [0, 1, 2, 3, 5, 7, 10, 100]
+
+
+def clos_int(rng, ints, funs, depth, assign=True):
+    """an integer expression over the integer variables `ints` (parameters, locals, captured variables, globals) and calls of
+    the integer closures `funs` = [(name, arity)]; non-commutative operators dominate so that a swapped capture is visible;
+    with `assign`, assignments to any of `ints` (a captured one changes the closure's own copy) may occur inside"""
+    if depth <= 0 or rng.random() < 0.3:
+        r = rng.random()
+        if ints and r < 0.6:
+            return rng.choice(ints)
+        if funs and r < 0.78:
+            f, n = rng.choice(funs)
+            return f"{f}({', '.join(clos_int(rng, ints, [], 0) for _ in range(n))})"
+        return str(rng.choice(CLOS_LITS))
+    a = lambda: clos_int(rng, ints, funs, depth - 1, assign)
+    r = rng.random()
+    if r < 0.5:
+        return f"({a()} {rng.choice(['-', '-', '-', '+', '*'])} {a()})"
+    if r < 0.65:
+        return f"if {a()} {rng.choice(['<', '<=', '>', '>=', '==', '!='])} {a()} {{ {a()} }} else {{ {a()} }}"
+    if r < 0.8 and funs:
+        f, n = rng.choice(funs)
+        return f"{f}({', '.join(a() for _ in range(n))})"
+    if r < 0.92 and ints and assign:
+        return f"({rng.choice(ints)} = {a()})"
+    return a()
+
+
+def clos_body(rng, ints, funs, depth, counter, ind, ret_fn=None):
+    """the statements of a function body, one per line: local `let`s, assignments (also to captured variables), nested
+    function literals and `fn` statements that capture what is visible (called here, or returned when `ret_fn` gives the arity
+    of the closure the function must return), blocks that shadow a captured name, loops creating a closure per iteration;
+    returns the text lines"""
+    ints = list(ints)
+    funs = list(funs)
+    out = []
+    def fresh(p):
+        counter[0] += 1
+        return f"{p}{counter[0]}"
+    for _ in range(rng.randint(0, 3)):
+        r = rng.random()
+        if r < 0.3:
+            n = fresh("t")
+            out.append(f"{ind}let {n} = {clos_int(rng, ints, funs, 2)};")
+            ints.append(n)
+        elif r < 0.45 and ints:
+            out.append(f"{ind}{rng.choice(ints)} = {clos_int(rng, ints, funs, 2)};")
+        elif r < 0.7 and depth > 0:
+            # a nested closure over everything visible, stored in a local
+            h = fresh("h")
+            ar = rng.randint(0, 2)
+            lit = clos_literal(rng, ints, funs, depth - 1, counter, ind, ar, name=h if rng.random() < 0.4 else None)
+            if lit.startswith("fn " + h):
+                out.append(f"{ind}{lit}")
+            else:
+                out.append(f"{ind}let {h} = {lit};")
+            funs.append((h, ar))
+        elif r < 0.8 and ints:
+            # a block that shadows a (possibly captured) name; afterwards the outer binding is visible again
+            v = rng.choice(ints)
+            others = [x for x in ints if x != v]
+            out.append(f"{ind}{{")
+            out.append(f"{ind}  let {v} = {clos_int(rng, others, funs, 1)};")
+            tgt = rng.choice(others) if others else v
+            out.append(f"{ind}  {tgt} = {clos_int(rng, ints, funs, 1)};")
+            out.append(f"{ind}}}")
+        elif r < 0.92 and depth > 0:
+            # a closure per iteration capturing the loop-local; each is called in its iteration and the last one afterwards
+            i = fresh("i"); j = fresh("j"); h = fresh("h"); acc = fresh("s")
+            out.append(f"{ind}let {i} = 0;")
+            out.append(f"{ind}let {acc} = 0;")
+            out.append(f"{ind}let {h} = null;")
+            out.append(f"{ind}while {i} < {rng.randint(1, 3)} {{")
+            out.append(f"{ind}  {i} = {i} + 1;")
+            out.append(f"{ind}  let {j} = {clos_int(rng, ints + [i], funs, 1, assign=False)};")
+            lit = clos_literal(rng, ints + [j, acc], funs, depth - 1, counter, ind + "  ", 1)
+            out.append(f"{ind}  {h} = {lit};")
+            out.append(f"{ind}  {acc} = {acc} * 3 - {h}({i});")
+            out.append(f"{ind}}}")
+            ints.append(acc)
+            funs.append((h, 1))
+        else:
+            out.append(f"{ind}{clos_int(rng, ints, funs, 2)};")
+    if ret_fn is not None:
+        lit = clos_literal(rng, ints, funs, max(0, depth - 1), counter, ind, ret_fn)
+        out.append(f"{ind}return {lit};" if rng.random() < 0.6 else f"{ind}{lit}")
+    else:
+        e = clos_int(rng, ints, funs, 2)
+        out.append(f"{ind}return {e};" if rng.random() < 0.3 else f"{ind}{e}")
+    return out
+
+
+def clos_literal(rng, ints, funs, depth, counter, ind, arity, name=None, ret_fn=None):
+    """`fn(p…) { … }` (or `fn name(p…) { … }`) written where `ints` / `funs` are visible: it captures what it uses"""
+    counter[0] += 1
+    ps = [f"p{counter[0]}_{q}" for q in range(arity)]
+    # a parameter sometimes hides a visible name
+    if ps and ints and rng.random() < 0.15:
+        ps[0] = rng.choice(ints)
+    inner_ints = [x for x in ints if x not in ps] + ps
+    body = clos_body(rng, inner_ints, funs, depth, counter, ind + "  ", ret_fn)
+    head = f"fn {name}({', '.join(ps)})" if name else f"fn({', '.join(ps)})"
+    return head + " {\n" + "\n".join(body) + f"\n{ind}}}"
+
+
+def core_clos_program(rng):
+    """a program of lean/P2sh/Core/Fn with closures: makers returning closures over parameters and locals (≥ 2 captures, used
+    non-commutatively), counters assigning to their captured copy, closures created in loops, two-level nests (capture
+    chains), closures stored in globals and called after the maker returned, aliases of one closure object, closures passed
+    as arguments, a function's own name used from a nested function"""
+    counter = [0]
+    lines = []
+    gints = []
+    for j in range(rng.randint(0, 2)):
+        lines.append(f"let g{j} = {rng.choice(CLOS_LITS)};")
+        gints.append(f"g{j}")
+    makers = []   # (name, arity of the maker, arity of what it returns, levels)
+    intfns = []
+    for j in range(rng.randint(1, 3)):
+        f = f"f{j}"
+        kind = rng.random()
+        if kind < 0.45:
+            ar, rar = rng.randint(1, 3), rng.randint(0, 2)
+            lit = clos_literal(rng, gints, intfns, 2, counter, "", ar, name=f, ret_fn=rar)
+            lines.append(lit if rng.random() < 0.6 else f"let {f} = fn" + lit[len("fn " + f):] + ";")
+            makers.append((f, ar, rar))
+        elif kind < 0.6:
+            # a counter: the captured copy is assigned; every closure object has its own
+            lines.append(f"fn {f}(s) {{\n  let n = s;\n  return fn(d) {{ n = n + d; n }};\n}}")
+            makers.append((f, 1, 1))
+        elif kind < 0.7:
+            # a capture chain through an intermediate function that does not use the variable itself
+            lines.append(f"fn {f}(a, b) {{\n  let c = a - b;\n  fn(x) {{\n    fn(y) {{ ((a - b) * 100 + (c - x) * 10) - y }}\n  }}\n}}")
+            lines.append(f"let k{j} = {f}({rng.randint(0, 9)}, {rng.randint(0, 9)});")
+            lines.append(f"let m{j} = k{j}({rng.randint(0, 9)});")
+            intfns.append((f"m{j}", 1))
+        elif kind < 0.8:
+            # the function's own name used from a nested function
+            lines.append(f"fn {f}(n) {{\n  let h = fn(k) {{ if k < 1 {{ 0 }} else {{ k - {f}(k - 1) }} }};\n  h(n)\n}}")
+            lines.append(f"let w{j} = {f}({rng.randint(0, 6)});")
+        elif kind < 0.9:
+            # the enclosing function changes its variable after the closure was created; the closure changes its copy
+            lines.append(f"fn {f}(a) {{\n  let h = fn() {{ a = a * 2; a }};\n  a = a + 100;\n  let x = h();\n  let y = h();\n  (a * 10000 + x * 100) - y\n}}")
+            intfns.append((f, 1))
+        else:
+            ar = rng.randint(0, 2)
+            lit = clos_literal(rng, gints, intfns, 2, counter, "", ar, name=f)
+            lines.append(lit)
+            intfns.append((f, ar))
+    # the top level: closures made, stored in globals, aliased, called after their makers returned
+    arg = lambda: str(rng.randint(0, 9)) if rng.random() < 0.7 else (rng.choice(gints) if gints else "4")
+    made = list(intfns)
+    n = 0
+    for _ in range(rng.randint(2, 6)):
+        n += 1
+        r = rng.random()
+        if makers and r < 0.45:
+            f, ar, rar = rng.choice(makers)
+            lines.append(f"let c{n} = {f}({', '.join(arg() for _ in range(ar))});")
+            made.append((f"c{n}", rar))
+        elif made and r < 0.85:
+            f, ar = rng.choice(made)
+            k = ar if rng.random() < 0.95 else ar + 1
+            lines.append(f"let r{n} = {f}({', '.join(arg() for _ in range(k))});")
+            gints.append(f"r{n}")
+        elif made and r < 0.92:
+            f, ar = rng.choice(made)
+            lines.append(f"let d{n} = {f};")
+            made.append((f"d{n}", ar))
+        elif made:
+            f, ar = rng.choice(made)
+            lines.append(f"let i{n} = 0;")
+            lines.append(f"let s{n} = 0;")
+            lines.append(f"while i{n} < 3 {{")
+            lines.append(f"  i{n} = i{n} + 1;")
+            lines.append(f"  s{n} = s{n} * 2 - {f}({', '.join(f'i{n}' for _ in range(ar))});")
+            lines.append("}")
+        else:
+            lines.append(f"let r{n} = {arg()};")
+    text = "\n".join(lines) + "\n"
+    if rng.random() < 0.08:
+        # a runtime fault somewhere (often inside a closure's body): the line of the failing operation is reported
+        spots = [m.start() for m in re.finditer(r" - ", text)]
+        if spots:
+            k = rng.choice(spots)
+            text = text[:k] + " - true" + text[k:]
+    return text
+
+
+CORE_CLOS_FIXED = [
+    "fn mk(a, b) { let c = a * 2; return fn(x) { a - b + c * x }; }\nlet f = mk(1, 2);\nlet g = mk(10, 3);\nlet r = f(5);\nlet q = g(7);\n",
+    "fn counter() { let n = 0; return fn() { n = n + 1; n }; }\nlet c = counter();\nlet d = counter();\nlet r1 = c();\nlet r2 = c();\nlet r3 = d();\nlet r4 = c();\nlet e = c;\nlet r5 = e();\nlet r6 = c();\n",
+    "fn outer(a) { let b = a + 1; fn(x) { fn(y) { a * 100 + b * 10 + x + y } } }\nlet f = outer(1);\nlet g = f(3);\nlet r = g(4);\n",
+    "let c0 = null;\nlet c1 = null;\nfn make(n) {\n  let i = 0;\n  while i < n {\n    let j = i * 10;\n    if i == 0 { c0 = fn(x) { j - x }; } else { c1 = fn(x) { x - j }; };\n    i = i + 1;\n  }\n}\nmake(2);\nlet r0 = c0(1);\nlet r1 = c1(1);\n",
+    "fn fact(n) { let h = fn(k) { if k < 2 { 1 } else { k * fact(k - 1) } }; h(n) }\nlet r = fact(5);\n",
+    "fn f(a) { let g = fn() { a = a + 1; a }; let x = g(); let y = g(); a * 100 + x * 10 + y }\nlet r = f(1);\n",
+    "fn f(a) { fn g(b) { a - b } g(1) - g(2) }\nlet r = f(10);\n",
+    "fn o(a, b) { fn() { a = b; a - b } }\nlet r = o(1, 2)();\n",
+    "fn o(a, b) { fn() { if a < b { a - b } else { b - a } } }\nlet r = o(1, 2)();\nlet q = o(2, 1)();\n",
+    "fn o(a) { fn(x) { let r = a + x; { let a = r * 2; r = a - x; } a - r } }\nlet r = o(5)(3);\n",
+    "fn o(a) { fn() { fn() { a = a + 1; a } } }\nlet m = o(1);\nlet i1 = m();\nlet i2 = m();\nlet r1 = i1();\nlet r2 = i1();\nlet r3 = i2();\n",
+    "fn apply(f, x) { f(x) }\nfn twice(f) { fn(x) { f(f(x)) } }\nfn sub(n) { fn(x) { x - n } }\nlet r = apply(twice(sub(3)), 10);\n",
+    "fn f(a) { { fn g(b) { a - b } a = g(1); } a }\nlet r = f(5);\n",
+    "fn f(a) { let g = fn(a) { a - 1 }; g(a * 2) - a }\nlet r = f(5);\n",
+    "let g0 = 5;\nfn f(a) { fn() { g0 = g0 + a; g0 } }\nlet c = f(2);\nlet r1 = c();\ng0 = 100;\nlet r2 = c();\n",
+    "fn f(a) { fn(x) { a - x } }\nlet r = f(1)(2, 3);\n",
+    "fn f(a) { let h = fn() { a }; a = a + 100; h() - a }\nlet r = f(1);\n",
+    "let r = (fn(x) { fn(y) { x - y } })(10)(3);\n",
+    "fn f(n) { let a = 0; let h = null; while a < n { a = a + 1; let b = a * a; h = fn() { b = b - a; b }; } h() - h() }\nlet r = f(3);\n",
+]
+
+
 CORE_FN_FIXED = [
     "fn fact(n) { if n < 2 { 1 } else { n * fact(n - 1) } }\nlet r = fact(10);\n",
     "let odd = null;\nfn even(n) { if n == 0 { true } else { odd(n - 1) } }\nodd = fn(n) { if n == 0 { false } else { even(n - 1) } };\nlet r = even(9);\nlet q = odd(9);\n",
@@ -469,7 +687,7 @@ CORE_FN_FIXED = [
     "fn f(x) { while x > 0 { x = x - 1; } }\nlet r = f(3);\n",
     "fn fib(n) { if n < 2 { return n; } let a = fib(n - 1); let b = fib(n - 2); a + b }\nlet i = 0;\nlet s = 0;\nwhile i < 8 { s = s + fib(i); i = i + 1; }\n",
     "let f = fn(n, acc) { if n <= 0 { return acc; } f(n - 1, acc + n) };\nlet r = f(50, 0);\n",
-]
+] + CORE_CLOS_FIXED
 
 
 def sources(ctx):
